@@ -56,6 +56,15 @@ async fn run_clock(mut clock: HLCTimestamp, reqs: flume::Receiver<Event>) {
         match event {
             Event::Get(tx) => {
                 let ts = clock.send().expect("Clock counter should not overflow");
+                #[cfg(datacake_verif)]
+                datacake_crdt::verif::emit(|seq| {
+                    format!(
+                        "{{\"ev\":\"clock_get\",\"seq\":{},\"node\":{},\"out\":{}}}",
+                        seq,
+                        clock.node(),
+                        datacake_crdt::verif::ts_json(ts)
+                    )
+                });
 
                 if clock.counter() >= CLOCK_BACKPRESSURE_LIMIT {
                     tokio::time::sleep(Duration::from_millis(1)).await;
@@ -64,7 +73,21 @@ async fn run_clock(mut clock: HLCTimestamp, reqs: flume::Receiver<Event>) {
                 let _ = tx.send(ts);
             },
             Event::Register(remote_ts) => {
+                #[cfg(datacake_verif)]
+                let verif_accepted = clock.recv(&remote_ts).is_ok();
+                #[cfg(not(datacake_verif))]
                 let _ = clock.recv(&remote_ts);
+                #[cfg(datacake_verif)]
+                datacake_crdt::verif::emit(|seq| {
+                    format!(
+                        "{{\"ev\":\"clock_register\",\"seq\":{},\"node\":{},\"remote\":{},\"accepted\":{},\"clock\":{}}}",
+                        seq,
+                        clock.node(),
+                        datacake_crdt::verif::ts_json(remote_ts),
+                        verif_accepted,
+                        datacake_crdt::verif::ts_json(clock)
+                    )
+                });
 
                 if clock.counter() >= CLOCK_BACKPRESSURE_LIMIT {
                     tokio::time::sleep(Duration::from_millis(1)).await;
